@@ -342,7 +342,7 @@ impl FsModel {
     referenced: &dyn Fn(&[u8]) -> Vec<String>,
   ) -> (Vec<Image>, bool) {
     let mut out: Vec<Image> = Vec::new();
-    let mut seen: BTreeSet<(u32, usize)> = BTreeSet::new();
+    let mut seen: BTreeSet<(u64, usize)> = BTreeSet::new();
     for dir in self.dir_variants() {
       let man_variants: Vec<Option<Vec<u8>>> = match dir.get(manifest) {
         Some(i) => Self::content_variants(&self.inodes[*i], policy, nonprefix).into_iter().map(Some).collect(),
@@ -412,15 +412,16 @@ impl FsModel {
   }
 }
 
-pub fn hash_image(img: &Image) -> u32 {
-  let mut h = crc32fast::Hasher::new();
+/// 64-bit SipHash of an image. (CRC32 must not be used here: WAL records embed their own CRC32,
+/// so whole-file CRCs of different record sequences collide systematically.)
+pub fn hash_image(img: &Image) -> u64 {
+  use std::hash::{Hash, Hasher};
+  let mut h = std::collections::hash_map::DefaultHasher::new();
   for (n, c) in img {
-    h.update(n.as_bytes());
-    h.update(&[0]);
-    h.update(&(c.len() as u64).to_le_bytes());
-    h.update(c);
+    n.hash(&mut h);
+    c.hash(&mut h);
   }
-  h.finalize()
+  h.finish()
 }
 
 /// Strong (collision-resistant enough for memoisation) key of the recovery-relevant projection.
@@ -461,4 +462,18 @@ pub fn materialise(root: &std::path::Path, img: &Image) -> std::io::Result<()> {
     std::fs::write(root.join(n), c)?;
   }
   Ok(())
+}
+
+impl FsModel {
+  /// A model whose durable state is exactly `img` (the state right after a crash + restart).
+  pub fn from_image(root: &str, img: &Image) -> FsModel {
+    let mut m = FsModel::new(root);
+    for (n, c) in img {
+      m.inodes.push(Inode { synced: c.clone(), pending: Vec::new() });
+      let i = m.inodes.len() - 1;
+      m.durable_dir.insert(n.clone(), i);
+      m.cur_dir.insert(n.clone(), i);
+    }
+    m
+  }
 }
